@@ -289,7 +289,7 @@ static int do_io(const char *name, int argc, char **argv)
     signal(SIGPIPE, SIG_IGN);
     start_record(name, argc, argv);
     /* read stdin first (unless a tty), then the two writes */
-    static unsigned char in[1 << 16];
+    static unsigned char in[1 << 20];   /* (a here-string may be longer than a pipe buffer) */
     size_t n = 0;
     int in_err = 0, is_tty = isatty(0);
     if (!is_tty && !getenv("VP_IO_NOREAD")) {
